@@ -136,7 +136,9 @@ impl Exec {
                     }
                     if status == St::Accepted {
                         let used = self.model.used();
-                        ensure!(used <= self.cfg.max_weight as i128, "C01", "C01/accepted-put-over-limit", "after the accepted {} the held keys weigh {} > limit {}", what, used, self.cfg.max_weight);
+                        if used > self.cfg.max_weight as i128 {
+                            return Err(Failure::new("C01", "C01/accepted-put-over-limit", format!("after the accepted {} the held keys weigh {} > limit {}: the put was accepted although not enough space resulted", what, used, self.cfg.max_weight)).with_also(vec!["C06".to_string()]));
+                        }
                     }
                 }
                 Pending::Delete { k } => {
@@ -438,7 +440,10 @@ impl Exec {
                 for (k, entry) in &self.model.held {
                     if self.cfg.tick_us > 100_000 { break; }
                     if let Some(deadline) = entry.deadline {
-                        ensure!(deadline >= start, "C10", "C10/liveness/not-swept-after-rotation", "key {} (deadline {:?}) was already expired at {:?} and is still held after one sweep of every shard ({} shards)", k, deadline, start, self.cfg.shards);
+                        if deadline < start {
+                            // also C07: such a key reads as absent yet refuses every put with KeyAlreadyExists, now for ever
+                            return Err(Failure::new("C10", "C10/liveness/not-swept-after-rotation", format!("key {} (deadline {:?}) was already expired at {:?} and is still held after one sweep of every shard ({} shards)", k, deadline, start, self.cfg.shards)).with_also(vec!["C07".to_string()]));
+                        }
                     }
                 }
                 Ok(())
@@ -488,8 +493,46 @@ impl Exec {
                 }
                 self.quiescent_checks("C03")
             }
+            Op::JumpDuring { after_reads, by_ms, op } => {
+                if !matches!(**op, Op::Put { .. } | Op::Upsert { .. }) || self.cfg.tick_us > 100_000 || self.cfg.noise_readers > 0 { return self.exec_op(op); }
+                // only the caller and the worker read the clock while the jump is armed
+                self.hold_sweeper();
+                let old = self.model.now;
+                let new = old + Duration::from_millis(*by_ms as u64);
+                if new.as_nanos() >= (u64::MAX / 2) as u128 { self.release_sweeper(); return self.exec_op(op); }
+                self.jump = Some((old, new));
+                self.clock.arm_jump(*after_reads as u64, *by_ms as u64 * 1_000_000);
+                let result = self.exec_jump_inner(op);
+                let happened = self.clock.disarm();
+                if result.is_ok() {
+                    // deadlines computed inside the operation may be based on the time after the jump: adopt those
+                    let (old_time, new_time) = self.jump.unwrap();
+                    for (k, entry) in self.model.held.iter_mut() {
+                        if let (Some(expected), Some((_, Some(actual), _))) = (entry.deadline, self.cache.verif_peek(&(*k as u64)).map(|(id, expiry, deleted)| (id, expiry.map(since_epoch), deleted))) {
+                            if actual != expected && actual == expected + (new_time - old_time) { entry.deadline = Some(actual); }
+                        }
+                    }
+                }
+                self.jump = None;
+                result?;
+                self.stats.jumps_inside_operations += happened as u32;
+                // the model catches up with the clock; a complete sweep at the new time, then the usual reconciliation
+                let now = Duration::from_nanos(self.clock.get());
+                self.advance_to(now)?;
+                self.quiescent_checks("C10")
+            }
             Op::StepWorker => Ok(()),
             Op::Stall { burst } => self.exec_stall(burst),
+        }
+    }
+
+    /// The wrapped write of a `JumpDuring`: executed like a plain put / upsert, but without the quiescent checks (the model
+    /// time is brought up to date first, by the caller).
+    fn exec_jump_inner(&mut self, op: &Op) -> Check {
+        match op {
+            Op::Put { k, w, ttl } => { if let Some(pending) = self.issue_put(*k, w, ttl)? { self.complete_pending(vec![pending], None)?; } Ok(()) }
+            Op::Upsert { k, value, w, ttl } => { if let Some(pending) = self.issue_upsert(*k, *value, w, ttl)? { self.complete_pending(vec![pending], None)?; } Ok(()) }
+            _ => Ok(()),
         }
     }
 
